@@ -135,10 +135,12 @@ def check_pair(acc, pendulum, a, b):
     # Interval (what DateTime.diff() returns) of length |b|; unary minus does not change their sign
     if b:
         from pendulum.duration import AbsoluteDuration
-        epoch = pendulum.DateTime(2001, 1, 1, tzinfo=pendulum.UTC)
+        epoch = pendulum.DateTime(2, 1, 1, tzinfo=pendulum.UTC)
         tabs = mk_td(abs(b))
-        for rname, right in (("AbsoluteDuration", AbsoluteDuration(microseconds=b)),
-                             ("absolute-Interval", pendulum.Interval(epoch.add(microseconds=abs(b)), epoch, absolute=True))):
+        rights = [("AbsoluteDuration", AbsoluteDuration(microseconds=b))]
+        if abs(b) < 9990 * 365 * 86400 * US:          # an Interval cannot be longer than the supported range of years
+            rights.append(("absolute-Interval", pendulum.Interval(epoch + tabs, epoch, absolute=True)))
+        for rname, right in rights:
             if obs.td_us(right) != abs(b):
                 acc.c["seed_not_canonical"] += 1
                 continue
@@ -244,8 +246,10 @@ def plan(tier, seed):
     from ..seeds import chunks
     thorough = tier == "thorough"
     vals = sorted(set(VALUES + LONG + [((seed * 7919 + i * 104729) % (2 * 10 ** 9)) - 10 ** 9 for i in range(4)]))
+    # magnitudes beyond the float-exact range of seconds (2^51..2^53 us and a multi-century length with a sub-second part)
+    vals = sorted(set(vals + BIG + [(1 << 51) + 1, -(1 << 51) - 7, 200000 * 86400 * US + 1, -(150000 * 86400 * US) - 999999]))
     if thorough:
-        vals = sorted(set(vals + BIG + [v * 3 + 1 for v in VALUES] + [-(v * 5) - 2 for v in VALUES]))
+        vals = sorted(set(vals + [(1 << 56) + 12345, -(1 << 58) - 1, 999999998 * 86400 * US + 86399999999] + [v * 3 + 1 for v in VALUES] + [-(v * 5) - 2 for v in VALUES]))
     nums = list(NUMS) + ([5, -5, 6, 1 / 3, -2.5, 3.5, 0.75] if thorough else [])
     shards = [{"kind": "pairs", "left": ch, "values": vals} for ch in chunks(vals, 16)]
     shards += [{"kind": "nums", "left": ch, "values": vals, "nums": nums} for ch in chunks(vals, 8)]
